@@ -147,7 +147,40 @@ INT_RANGES = {
 }
 
 
+def fold_aff(base, a, b):
+    """Parity-affine domain (A8): ('aff', m, c) stands for m*k + c with k >= 0 symbolic (and m*k + c >= 0)."""
+    if a[0] == "aff" and b[0] == "int":
+        m, c, n = a[1], a[2], b[1]
+        if base == "Add":
+            return ("aff", m, c + n)
+        if base == "Sub":
+            return ("aff", m, c - n)
+        if base == "Mul":
+            return ("aff", m * n, c * n)
+        if base in ("Rem",) and n > 0 and m % n == 0:
+            return ("int", c % n)
+        if base == "BitAnd" and n == 1 and m % 2 == 0:
+            return ("int", c & 1)
+        if base == "BitXor" and n == 1 and m % 2 == 0 and c >= 0:
+            return ("aff", m, c ^ 1)
+        if base == "BitOr" and n == 1 and m % 2 == 0 and c >= 0:
+            return ("aff", m, c | 1)
+        if base == "Div" and n > 0 and m % n == 0 and c >= 0:
+            return ("aff", m // n, c // n)
+        if base == "Shr" and n >= 0 and m % (1 << n) == 0 and c >= 0:
+            return ("aff", m >> n, c >> n)
+        if base == "Shl" and n >= 0:
+            return ("aff", m << n, c << n)
+    if a[0] == "int" and b[0] == "aff":
+        if base in ("Add", "Mul"):
+            return fold_aff(base, b, a)
+    return None
+
+
 def fold_bin(op, a, b):
+    if a[0] == "aff" or b[0] == "aff":
+        base = op.replace("WithOverflow", "").replace("Unchecked", "")
+        return fold_aff(base, a, b)
     if a[0] == "int" and b[0] == "int":
         x, y = a[1], b[1]
         base = op.replace("WithOverflow", "").replace("Unchecked", "")
@@ -194,9 +227,10 @@ def fold_bin(op, a, b):
 class Ev:
     """Term evaluator for one function body."""
 
-    def __init__(self, prog, fn, binds=None, assume=None, depth=0, max_depth=6, stack=()):
+    def __init__(self, prog, fn, binds=None, assume=None, depth=0, max_depth=6, stack=(), overrides=None):
         self.prog = prog
         self.fn = fn
+        self.overrides = overrides or {}
         self.binds = binds or {}
         self.assume = assume or {}
         self.depth = depth
@@ -364,6 +398,8 @@ class Ev:
 
     def _local(self, l, at):
         fn = self.fn
+        if l in self.overrides:
+            return self.overrides[l]
         if fn.is_object(l) and not (1 <= l <= fn.nargs and l in self.binds):
             return ("obj", fn.path, l)
         defs, entry = self.reaching(l, at)
@@ -481,7 +517,7 @@ class Ev:
                 return r
             if args[0][0] == "bytes" and args[1][0] == "bytes":
                 return ("int", int((args[0] == args[1]) == (f.get("trait_method") == "eq")))
-        if f.get("trait") == "core::ops::index::Index" and len(args) == 2:
+        if f.get("trait") in ("core::ops::index::Index", "core::ops::index::IndexMut") and len(args) == 2:
             return ("index", args[0], args[1])
         return ("call", path, args, (self.fn.path, b))
 
